@@ -308,6 +308,9 @@ func (g *wgen) schema(depth int) *asch {
 		}
 	}
 	if depth >= g.maxDepth || r.Intn(3) == 0 {
+		if r.Intn(14) == 0 {
+			return &asch{kind: "null"} // null as a field, item or map value type
+		}
 		k := r.Intn(len(primKinds) + 1)
 		if k == len(primKinds) {
 			return &asch{kind: "fixed", n: []int{0, 1, 4, 16}[r.Intn(4)]}
@@ -341,6 +344,11 @@ func (g *wgen) schema(depth int) *asch {
 		for i := 0; i < n; i++ {
 			b := g.schema(g.maxDepth) // primitive branches
 			u.fields = append(u.fields, b)
+		}
+		if n >= 2 && r.Intn(2) == 0 {
+			// a general union that also has a null branch, in any position
+			at := r.Intn(len(u.fields) + 1)
+			u.fields = append(u.fields[:at], append([]*asch{{kind: "null"}}, u.fields[at:]...)...)
 		}
 		return u
 	}
